@@ -10,7 +10,7 @@ META = {
     "engine": "Cut",
     "technique": "TLA+ two-sided envelope (must-keep / may-remove / must-remove) as the reference; the parser's line/firstText/numTokenInLine/cutSpacesToken machine with cutSpaces transcribed action per branch and model-checked by TLC against the envelope for every piece sequence; the same sequences (and seeded longer ones) are rendered by the real BuildTemplate+Run in six formats and every output is judged by the TLA+ envelope in a TLC trace spec",
     "level": "model_checking",
-    "level_text": "A template is a sequence of pieces (text fragments incl. spaces, tabs, LF, CRLF, BOM, braces, '#', '%', '<b>'; shows of constants, {{ render }}, if/end, var, {%% %%}, comments incl. nested and multi-line, raw blocks with and without marker, a leading shebang). TLC explores the implementation-shaped cut machine for every sequence up to length 4 (quick) / 5 (thorough) over the class representatives, under both readings of the end-of-file trigger, checking model output in envelope, slice bounds of the cuts and agreement of the action-wise and functional forms; every judgeable sequence is replayed through the real code (quick: all in .txt, length<=3 in the other five formats; thorough: all six) plus seeded sequences up to length 8 over the whole catalogue, and TLC judges each real output against the envelope.",
+    "level_text": "A template is a sequence of pieces (text fragments incl. spaces, tabs, LF, CRLF, BOM, braces, '#', '%', '<b>'; shows of constants, {{ render }}, if/end, var, {%% %%}, comments incl. nested and multi-line, raw blocks with and without marker, a leading shebang). TLC explores the implementation-shaped cut machine for every sequence up to length 4 (quick) / 5 (thorough) over the class representatives, under both readings of the end-of-file trigger, checking model output in envelope, slice bounds of the cuts and agreement of the action-wise and functional forms; every balanced sequence is replayed through the real code (all in .txt; in the other five formats those of length<=3, thorough also length 4) plus seeded sequences up to length 8 over the whole catalogue, and TLC judges each real output against the envelope.",
     "level_note": "Trusted: TLC, the Json community module, the Go driver that only concatenates, builds, runs and logs. The envelope reads 'line' as physical line and classes a {{ render }} alone on its line with the statements (lenient readings, written next to the predicates). It does not demand that a content-free line IS removed (var/const declarations keep theirs today), so a statement kind that forgets cutSpacesToken shows up only as model drift. Statements whose output depends on evaluation (if false, for, else, macros, extends/import) are not generated; text is limited to the catalogue alphabet, so format-specific lexer contexts (attributes, script/style, Markdown code blocks beyond a leading tab) are barely exercised.",
     "design_ref": "7/C15",
 }
@@ -27,7 +27,7 @@ PROPOSED_KNOWN = [
      "signature": {"fam": "cut", "cause": "leading-space-and-space-after-multi-line-statement-removed", "detail": "-"},
      "what": "both of the two causes above in one template"},
     {"kind": "known",
-     "signature": {"fam": "cut", "cause": "host-panic", "detail": "runtime error: slice bounds out of range [N:N]"},
+     "signature": {"fam": "cut", "cause": "host-panic", "detail": "runtime error: slice bounds out of range [N:N]", "ctx": "space-after-multi-line-statement"},
      "what": "parser.go cutSpaces: a text without line feed that follows a multi-line {%% %%} is cut entirely as the END of the statement's first line and again as the START of the next line: `{%% a := 1<LF>%%} {# c #}<LF>x` panics in the emitter (Text[Cut.Left:len-Cut.Right], slice bounds out of range) instead of rendering"},
 ]
 
@@ -41,19 +41,40 @@ SYNTAX_NAMES = ["show7", "shows", "render", "if", "end", "assign", "var", "stmts
 INVS = ["EnvelopeHead", "EnvelopeFix", "SliceHead", "SliceFix", "SameAsFunctional"]
 
 
-def consts(ctx, mc, small=False):
-    """mc=True: the model-checking run (no export worth speaking of); False: the export run (no state space)."""
-    alpha = ctx.pick(QUICK_ALPHA, THOROUGH_ALPHA)
-    return {"MaxLen": ctx.pick(4, 5) if mc else 0, "MCAlpha": alpha,
-            "GenLen": 0 if mc or small else ctx.pick(4, 5), "GenAlpha": alpha}
+def spaces(ctx):
+    """(alphabet, max length) of the sequence spaces explored by TLC and replayed, per tier"""
+    return ctx.pick([(QUICK_ALPHA, 4)], [(QUICK_ALPHA, 5), (THOROUGH_ALPHA, 4)])
 
 
 def run(ctx, only_case=None):
-    with ThreadPoolExecutor(max_workers=2) as ex:
-        f_mc = None if only_case else ex.submit(model_check, ctx)
-        f_gen = ex.submit(export, ctx, only_case is not None)
-        catalogue, seqs = f_gen.result()
-        mc = f_mc.result() if f_mc else None
+    sp = spaces(ctx)
+    with ThreadPoolExecutor(max_workers=len(sp)) as ex:
+        if only_case:
+            futs = [ex.submit(model_check, ctx, 0, sp[0][0], 0, 0)]      # catalogue only
+        else:
+            futs = [ex.submit(model_check, ctx, k, a, n, n) for k, (a, n) in enumerate(sp)]
+        res = [f.result() for f in futs]
+    gens = [(r["catalogue"], r["seqs"]) for r in res]
+    mcs = [] if only_case else res
+    catalogue = gens[0][0]
+    seqs, seen = [], set()
+    for _, ss in gens:
+        for ns in ss:
+            if tuple(ns) not in seen:
+                seen.add(tuple(ns))
+                seqs.append(ns)
+    mc = None
+    if mcs:
+        cex = {}
+        for m in mcs:
+            for k, v in m["model_counterexamples"].items():
+                cex[k] = cex.get(k, 0) + v
+        mc = {"states": sum(m["states"] for m in mcs), "transitions": sum(m["transitions"] for m in mcs),
+              "mc_wall_s": max(m["mc_wall_s"] for m in mcs), "mc_invariants": INVS, "model_counterexamples": cex,
+              "bounds": "; ".join(m["bounds"] for m in mcs), "mc_runs": [{k: m[k] for k in ("states", "mc_wall_s", "bounds")} for m in mcs]}
+        if not ctx.quick:
+            mc["actions_never_taken"] = sorted({a for m in mcs for a in m["actions_never_taken"]} if all("actions_never_taken" in m for m in mcs) else [])
+            mc["actions_never_taken"] = [a for a in mc["actions_never_taken"] if all(a in m["actions_never_taken"] for m in mcs)]
     if mc:
         ctx.cov.update(mc)
     # ---- cases: every judgeable sequence exported by TLC x formats, plus seeded longer sequences
@@ -96,29 +117,23 @@ def run(ctx, only_case=None):
         if n_env or n_sl:
             ctx.cov["model_counterexample"] = (f"the transcription that matches the code ({variant.lower()}) has {n_env} sequences whose model output is "
                                                f"outside the envelope and {n_sl} with overlapping cuts (design-level, diagnostic; the verdict is from the real code)")
-    # ---- reproduction guard (fresh driver process, judged again) and, in parallel, the sensitivity
-    # self-test (corrupted observations must be rejected by the same Trace spec)
-    def confirm():
-        if not bads:
-            return []
-        ids = sorted({b["id"] for b in bads})
+    # ---- reproduction guard (the failing cases again in a fresh driver process) and sensitivity self-test
+    # (corrupted observations must be rejected), judged together by one more run of the same Trace spec
+    cobs = []
+    if bads:
         cc = ctx.work / "confirm_cases.ndjson"
-        rig.write_ndjson(cc, [by_id[i] for i in ids])
+        rig.write_ndjson(cc, [by_id[i] for i in sorted({b["id"] for b in bads})])
         co = ctx.work / "confirm_obs.ndjson"
         ctx.drive("c15", cc, co)
-        b2, _ = judge(ctx, "trace_confirm", rig.read_ndjson(co), shards=1)
-        again = {(b["id"], json.dumps(b["sig"], sort_keys=True)) for b in b2}
-        return [b for b in bads if (b["id"], json.dumps(b["sig"], sort_keys=True)) in again]
-
-    def selftest():
-        st = corrupted(allobs, ctx.seed)
-        if not st:
-            return None
-        b3, _ = judge(ctx, "trace_selftest", st, shards=1)
-        return st, {b["id"] for b in b3}
-    with ThreadPoolExecutor(max_workers=2) as ex:
-        f_c, f_s = ex.submit(confirm), ex.submit(selftest)
-        confirmed, sres = f_c.result(), f_s.result()
+        cobs = rig.read_ndjson(co)
+    st = corrupted(allobs, ctx.seed)
+    confirmed, sres = [], None
+    if cobs or st:
+        b2, _ = judge(ctx, "trace_confirm", cobs + st, shards=1)
+        again = {(b["id"], json.dumps(b["sig"], sort_keys=True)) for b in b2 if b["id"] < 9000000}
+        confirmed = [b for b in bads if (b["id"], json.dumps(b["sig"], sort_keys=True)) in again]
+        if st:
+            sres = st, {b["id"] for b in b2 if b["id"] >= 9000000}
     if bads:
         ctx.cov["unreproduced"] = len(bads) - len(confirmed)
     confirmed.sort(key=lambda b: (len(b["obs"]["src"]), b["id"]))      # shortest witness first
@@ -140,12 +155,14 @@ def run(ctx, only_case=None):
 
 
 # ------------------------------------------------------------------------------------------------
-def model_check(ctx):
-    wd = ctx.stage("mc", FAMS)
-    c = consts(ctx, True)
+def model_check(ctx, k, alpha, maxlen, genlen):
+    """One TLC run: exhaustive exploration of the cut machine over the sequence space + export of the
+    balanced sequences (names) and of the piece catalogue."""
+    wd = ctx.stage(f"mc{k}", FAMS)
+    c = {"MaxLen": maxlen, "MCAlpha": alpha, "GenLen": genlen, "GenAlpha": alpha}
     rig.write_cfg(wd / "MC_Cut.cfg", constants=c, invariants=INVS)
-    r = ctx.tlc(wd, "MC_Cut", workers=max(2, rig.NCPU // 2), timeout=ctx.pick(300, 800), coverage=not ctx.quick, extra=["-continue"])
-    done = "Model checking completed" in r.out or re.search(r"\d+ states generated, \d+ distinct states found, 0 states left on queue", r.out)
+    r = ctx.tlc(wd, "MC_Cut", workers=max(2, rig.NCPU // 2), timeout=ctx.pick(300, 840), coverage=not ctx.quick, extra=["-continue"])
+    done = re.search(r"\d+ states generated, \d+ distinct states found, 0 states left on queue", r.out)
     if not done or r.distinct == 0:
         raise Infra(f"MC_Cut did not complete: {wd}/MC_Cut.out\n" + rig.tail(r.out, 25))
     cex = {}
@@ -153,33 +170,25 @@ def model_check(ctx):
         cex[name] = cex.get(name, 0) + 1
     if "SameAsFunctional" in cex:
         raise Infra("MC_Cut: the action-wise cut machine and its functional form (used by Trace_Cut) disagree")
-    out = {"states": r.distinct, "transitions": r.generated, "mc_wall_s": round(r.wall, 1), "mc_invariants": INVS,
-           "model_counterexamples": cex,
-           "bounds": f"MC: all sequences of length <= {c['MaxLen']} over {len(c['MCAlpha'])} piece classes {sorted(c['MCAlpha'])}, both readings of the EOF trigger"}
+    out = {"states": r.distinct, "transitions": r.generated, "mc_wall_s": round(r.wall, 1), "model_counterexamples": cex,
+           "bounds": f"all sequences of length <= {maxlen} over {len(alpha)} piece classes {sorted(alpha)} x 2 transcriptions of the line block"}
     if not ctx.quick:
         out["actions_never_taken"] = r.coverage_zero()
-    return out
-
-
-def export(ctx, small=False):
-    wd = ctx.stage("gen", FAMS)
-    rig.write_cfg(wd / "MC_Cut.cfg", constants=consts(ctx, False, small), invariants=[])
-    ctx.tlc(wd, "MC_Cut", workers=1, timeout=ctx.pick(200, 800), must_pass=True)
-    catalogue = {(e["name"], e["pos"], e["fmt"]): e["s"] for e in rig.read_ndjson(wd / "catalogue.ndjson")}
-    seqs = [c["names"] for c in rig.read_ndjson(wd / "cases.ndjson")]
-    if not seqs or not catalogue:
+    if not (wd / "catalogue.ndjson").exists() or not (wd / "cases.ndjson").exists():
         raise Infra("MC_Cut exported no cases / no catalogue")
-    return catalogue, seqs
+    out["catalogue"] = {(e["name"], e["pos"], e["fmt"]): e["s"] for e in rig.read_ndjson(wd / "catalogue.ndjson")}
+    out["seqs"] = [c["names"] for c in rig.read_ndjson(wd / "cases.ndjson")]
+    return out
 
 
 def assemble(ctx, catalogue, seqs):
     """TLC's judgeable name sequences x formats, plus seeded random longer sequences over the whole catalogue.
     Only names are chosen here; bytes come from TLC's catalogue, verdicts from Trace_Cut."""
     cases, n = [], 0
-    lim = ctx.pick(3, 5)          # other formats: sequences up to this length
     for ns in seqs:
         for f in ALL_FMTS:
-            if f != "txt" and len(ns) > lim:
+            # every sequence in .txt; in the other five formats those of length <= 3 (thorough: also length 4 over the quick classes)
+            if f != "txt" and len(ns) > 3 and (ctx.quick or len(ns) > 4 or not set(ns) <= QUICK_ALPHA):
                 continue
             if f in ("js", "css", "json") and "shows" in ns:
                 continue
@@ -187,7 +196,7 @@ def assemble(ctx, catalogue, seqs):
             cases.append({"id": n, "fmt": f, "names": ns})
     ctx.cov["sequences_exported_by_tlc"] = len(seqs)
     rng = random.Random(ctx.seed)
-    extra = ctx.pick(3000, 60000)
+    extra = ctx.pick(1500, 20000)
     for k in range(extra):
         ln = rng.randint(3, 8)
         ns, depth = [], 0
@@ -225,7 +234,7 @@ def assemble(ctx, catalogue, seqs):
 
 def judge(ctx, step, observations, shards=None):
     """Trace_Cut over the observations, sharded over parallel TLC processes. Returns (bad records with obs, summed stats)."""
-    shards = shards or (1 if len(observations) < 3000 else min(6, max(2, len(observations) // 4000 + 1)))
+    shards = shards or min(6, len(observations) // 4000 + 1)
     size = (len(observations) + shards - 1) // shards or 1
     parts = [observations[i:i + size] for i in range(0, max(len(observations), 1), size)]
 
